@@ -401,7 +401,9 @@ func Never() Observable[struct{}] {
 	return NewUnsafeObservableWithContext(func(subscriberCtx context.Context, destination Observer[struct{}]) Teardown {
 		done := make(chan struct{})
 
-		go func() {
+		// The terminal sent from this goroutine unsubscribes the subscriber: a teardown that panics is
+		// re-raised here and must not take the process down.
+		go recoverUnhandledError(func() {
 			for {
 				select {
 				case <-subscriberCtx.Done():
@@ -416,7 +418,7 @@ func Never() Observable[struct{}] {
 					return
 				}
 			}
-		}()
+		})
 
 		return func() {
 			close(done)
